@@ -280,6 +280,14 @@ static InstResult run_fmt(const std::vector<CrashInfo> &cr, bool th, int shard, 
 			{"{0}{0}", "55"}, {"{}{1}", "5{1}"}, {"no args", "no args"}, {"", ""}, {"{:dx}", "{:dx}"}, {"{: 4}", "{: 4}"}, {"{-1}", "{-1}"}, {"{0:}", "5"}, {"{:}", "5"}};
 		for(auto &sh : shapes) { cases++; std::string got = do_fmt(sh.f, 5); if(got != sh.want) throw Violation{"C19", "fmt-mismatch:shape", std::string("fmt(\"") + sh.f + "\", 5) = \"" + got + "\" expected \"" + sh.want + "\""}; }
 		cases++; if(do_fmt("{}") != "{}" || do_fmt("x{0}y") != "x{0}y") throw Violation{"C19", "fmt-mismatch:no-args", "fmt with no arguments must echo its specs"};
+		// numbers that do not fit: a width beyond INT_MAX or a position beyond SIZE_MAX makes the spec out of range -> echoed
+		for(const char *n : {"2147483648", "2147483649", "21474836485", "4294967296", "9223372036854775808", "18446744073709551616", "99999999999999999999999"}) {
+			for(std::string f : {std::string("{:") + n + "}", std::string("{:0") + n + "d}", std::string("{:") + n + "x}"}) { cases++; std::string got = do_fmt(f, 7); if(got != f) throw Violation{"C19", "fmt-mismatch:out-of-range-width", "fmt(\"" + f + "\", 7) = \"" + got.substr(0, 60) + "\" but a width that does not fit must be echoed"}; }
+		}
+		for(const char *n : {"18446744073709551616", "18446744073709551617", "184467440737095516160", "99999999999999999999999"}) {
+			std::string f = std::string("{") + n + "}"; cases++; std::string got = do_fmt(f, 7, 8); if(got != f) throw Violation{"C19", "fmt-mismatch:out-of-range-position", "fmt(\"" + f + "\", 7, 8) = \"" + got.substr(0, 60) + "\" but a position that does not fit must be echoed"};
+		}
+		for(const char *n : {"2", "4294967296", "18446744073709551615"}) { std::string f = std::string("{") + n + "}"; cases++; std::string got = do_fmt(f, 7, 8); if(got != f) throw Violation{"C19", "fmt-mismatch:out-of-range-position", "fmt(\"" + f + "\", 7, 8) must echo an out-of-range position"}; }
 		// long and unsigned arguments, wide values
 		cases++; if(do_fmt("{:x} {:b} {:o} {}", 0xfffffffffffffffful, 5u, 8ul, -9223372036854775807L - 1) != "ffffffffffffffff 101 10 -9223372036854775808") throw Violation{"C19", "fmt-mismatch:wide", "64-bit values rendered wrongly"};
 		cases++; if(do_fmt("{:020}|{:20}", 123456789012345678L, 42) != "00123456789012345678|                  42") throw Violation{"C19", "fmt-mismatch:wide-width", "wide fields rendered wrongly"};
